@@ -711,6 +711,11 @@ def templates(op, spox):
     t("c_value_be_i8", (), ("I3",), lambda a, p: [op.constant(value=np.array([2, 0, 1], dtype=">i8"))])
     t("c_value_be_f4", (), ("F6",), lambda a, p: [op.constant(value=np.arange(6).astype(">f4") * 0.5)])
     t("init_be_f4", (), ("F3",), lambda a, p: [spox._future.initializer(np.array([1.5, -2.0, 3.0], dtype=">f4"))])
+    # operators WITHOUT inputs whose result is not a constant: a random draw must never be taken for the value of the Var
+    t("random_normal", (), ("F3",), lambda a, p: [op.random_normal(shape=[3])])
+    t("random_uniform_seeded", (), ("F3",), lambda a, p: [op.random_uniform(shape=[3], seed=7.0)])
+    t("random_normal_like", (("F3",),), ("F3",), lambda a, p: [op.random_normal_like(a[0])])
+    t("random_uniform_like", (("F6",),), ("F6",), lambda a, p: [op.random_uniform_like(a[0], low=1.0, high=5.0)])
     # ... of the 16-bit element types as well (another packing path in make_tensor / from_array)
     t("c_value_be_i2", (), ("F3",), lambda a, p: [op.cast(op.constant(value=np.array([1, 2, 250], dtype=">i2")), to=np.float32)])
     t("c_value_be_u2", (), ("F3",), lambda a, p: [op.cast(op.constant(value=np.array([3, 256, 65535], dtype=">u2")), to=np.float32)])
